@@ -42,6 +42,7 @@ type storeOp struct {
 	Text int    `json:"text,omitempty"` // text class for save
 	Via  int    `json:"via,omitempty"`  // 0 = cached long-lived server, 1 = fresh server process
 	Zone int    `json:"zone,omitempty"` // run: the recording process lives in a time zone this many minutes ahead of the server's
+	Straddle bool `json:"straddle,omitempty"` // run: the run is still in progress while the next operation is carried out, and ends after it
 }
 
 type storeScenario struct {
@@ -130,6 +131,7 @@ func genStoreOps(tp *simrt.Tape, nNames, maxOps int) []storeOp {
 		if k == "run" {
 			// `start` typed in a shell whose TZ differs from the server's: the record's file name carries that wall clock
 			op.Zone = pick(tp, 0, 0, 0, 540, 60, 330)
+			op.Straddle = chance(tp, 1, 4)
 		}
 		ops = append(ops, op)
 	}
@@ -147,6 +149,7 @@ type storeCtx struct {
 	statFaultOn  bool    // fault "stat_error": the look-up of an existing target of a create or rename fails (EIO)
 	statFaultAt  *string // the path whose next stat by the server fails
 	unlinkFaults *int // injected failures of the server's unlink of history records so far (nil: none are injected)
+	pending      func() // the end of a run that is still in progress (straddles the next operation)
 }
 
 func (h *storeCtx) viol(clause, disc, format string, a ...any) {
@@ -352,6 +355,41 @@ func (h *storeCtx) applyOp(i int, op storeOp) bool {
 			bump(h.out, "run_recorded_in_a_zone_ahead")
 		}
 		var err error
+		if op.Straddle && h.pending == nil {
+			// the run stays open over the next operation (a DAG deleted or renamed while it runs) and ends then
+			var db *jsondb.JSONDB
+			inProc(h.w, "recorder", func() {
+				db = jsondb.New(dataDir, true)
+				if err = db.Open(dagFile(a), r.started, r.id); err != nil {
+					return
+				}
+				err = db.Write(mkStatus(r.id, a, mk, dagsched.StatusRunning))
+			})
+			if err != nil {
+				h.viol("record-failed", "run", "%s: recording a run of %q failed: %v", tag, a, err)
+				return true
+			}
+			h.m.hist[a] = append(h.m.hist[a], r)
+			bump(h.out, "run_in_progress_over_next_op")
+			h.pending = func() {
+				h.marker++
+				last := h.marker
+				var werr error
+				inProc(h.w, "recorder", func() {
+					werr = db.Write(mkStatus(r.id, a, last, dagsched.StatusSuccess))
+					_ = db.Close() // what the end-of-run compaction makes of a record that is gone is its own business
+				})
+				for _, rs := range h.m.hist {
+					for _, o := range rs {
+						if o == r && werr == nil {
+							r.marker = last // still on record (under whatever name): the last status is what it shows
+						}
+					}
+				}
+			}
+			simrt.Sleep(2 * time.Millisecond)
+			return true
+		}
 		inProc(h.w, "recorder", func() {
 			db := jsondb.New(dataDir, true)
 			if err = db.Open(dagFile(a), r.started, r.id); err != nil {
@@ -585,6 +623,7 @@ func storesim(t *testing.T, tp *simrt.Tape, opts RunOpts) *Outcome {
 		inProc(w, "server", func() {
 			h.srv = newAPIServer()
 			for i, op := range sc.Ops {
+				ending := h.pending
 				if !h.applyOp(i, op) || op.Kind == "sleep" {
 					continue
 				}
@@ -593,6 +632,18 @@ func storesim(t *testing.T, tp *simrt.Tape, opts RunOpts) *Outcome {
 				if len(out.Violations) > 0 {
 					break
 				}
+				if ending != nil {
+					h.pending = nil
+					ending()
+					h.compare(fmt.Sprintf("after the end of the run that was in progress during op %d %s", i, op.Kind), i%2, names[op.A%len(names)], names[op.B%len(names)])
+					if len(out.Violations) > 0 {
+						break
+					}
+				}
+			}
+			if h.pending != nil && len(out.Violations) == 0 {
+				h.pending()
+				h.pending = nil
 			}
 		})
 		out.NonTrivial = len(h.m.text) > 0 || len(h.m.hist) > 0
